@@ -390,7 +390,7 @@ func ruleLoggerLockset(c *Ctx, r *Report, prefix string) {
 		held bool
 	}
 	accessHeld := map[*ssa.Function][]bool{} // per access: lock held locally?
-	callsHeld := map[*ssa.Function][]site{}   // callee -> call sites with held flag
+	callsHeld := map[*ssa.Function][]site{}  // callee -> call sites with held flag
 	isNew := func(fn *ssa.Function) bool { return fn.Name() == "New" }
 	for _, fn := range fns {
 		if isNew(fn) || fn.Blocks == nil {
